@@ -364,13 +364,70 @@ def execute(case) -> Outcome:
 
 @st.composite
 def resend_cases(draw):
-    return {"first": draw(requests(0, illegal_ok=False)), "second": draw(requests(1, illegal_ok=False)),
+    case = {"first": draw(requests(0, illegal_ok=False)), "second": draw(requests(1, illegal_ok=False)),
             "sync": draw(st.booleans()), "proto": "h2-alpn", "port": None}
+    if draw(st.integers(0, 2)) == 0:
+        # HTTP/1.1: the second request goes out on the kept-alive connection of the first and is hit by a fault at a drawn operation
+        # (a server that went away: end of stream / reset / silence); whatever is transmitted completely must be the caller's request
+        case["proto"] = "h1"
+        case["frac"] = draw(st.integers(0, 11))
+        case["where"] = draw(st.sampled_from(["any", "read", "read"]))  # any operation of the second exchange / one of its reads
+        case["fault"] = draw(st.sampled_from(["eof", "eof", "error", "timeout"]))
+    return case
+
+
+def execute_resend_h1(case) -> Outcome:
+    sync = case["sync"]
+    specs = [{"method": r["method"], "url": "http://a.test" + r["target"], "headers": r["headers"], "content": r["body"], "api": r["api"],
+              "ext_target": r["ext_target"]} for r in (case["first"], case["second"])]
+
+    def once(fault):
+        cfg = make_net(case)
+        world = World(peer_factory=cfg.peer_factory, faults=[dict(fault)] if fault else [])
+        pool = build_pool(world, {}, sync=sync)
+        outs = []
+        mark = []
+        if sync:
+            outs.append(sync_request(pool, specs[0]))
+            mark.append(world.kind_count.get("elig", 0))
+            outs.append(sync_request(pool, specs[1]))
+            pool.close()
+        else:
+            async def go():
+                outs.append(await async_request(pool, specs[0]))
+                mark.append(world.kind_count.get("elig", 0))
+                outs.append(await async_request(pool, specs[1]))
+                await pool.aclose()
+
+            run_async(go())
+        return outs, world, mark[0]
+
+    outs, world, boundary = once(None)
+    ops = [op["elig"] for op in world.trace if "elig" in op and op["elig"] >= boundary and (case.get("where", "any") == "any" or op["kind"] == "read")]
+    fault = None
+    if ops:
+        fault = {"at": ops[case["frac"] % len(ops)], "fault": case["fault"]}
+        outs, world, _ = once(fault)
+    exchanges = sorted((ex for p in world.pipes for ex in p.peer.all_exchanges()), key=lambda e: e["head_seq"])
+    second = [e for e in exchanges if e["token"] == "q1" and e["complete"]]
+    body = case["second"]["body"]
+    one_shot = isinstance(body, dict)
+    vio = []
+    for j, ex in enumerate(second):
+        for kind, msg in check_exchange(case, case["second"], ex, case["second"]["headers"],
+                                        f"[{'sync' if sync else 'async'}] HTTP/1.1, reused connection hit by {fault}: complete transmission {j + 1} of the request"):
+            vio.append(V(P, "resend-" + kind, msg, proto="h1", body="iterator" if one_shot else ("bytes" if body is not None else "none"), transmission=j + 1))
+    tags = ["h1-fault-on-reused-connection", "fault-" + case["fault"], "transmissions=" + str(len(second)),
+            "body-" + ("none" if body is None else "bytes" if isinstance(body, bytes) else "iter")]
+    return Outcome(vio, tags, bool(world.fired_faults) and len(world.pipes[0].peer.all_exchanges()) >= 2,
+                   info={"transmissions": len(second), "outcomes": [o.get("status") or o["exc"]["name"] for o in outs]})
 
 
 def execute_resend(case) -> Outcome:
     """Second request's stream is refused by GOAWAY(last-stream-id = 1): it is re-sent on a new connection and every
     transmission must decode to the same request."""
+    if case["proto"] == "h1":
+        return execute_resend_h1(case)
     vio = []
     script = [{"when": {"event": "headers", "n": 1}, "do": [{"goaway": {"last": "below"}}]}]
     cfg = make_net(case, script=script)
@@ -414,7 +471,7 @@ RULE = ("A case is 1-3 sequential requests to one origin over HTTP/1.1, HTTP/2 v
         "authority-form), 0-5 headers with mixed case and duplicates, optional caller Host / Content-Length / Transfer-Encoding, "
         "body None / bytes / empty bytes / iterator chunkings incl. empty chunks, through request(), stream() or "
         "handle_request(Request); in some cases all requests share one httpcore.URL instance or one header list object (reused caller objects); one request in five gets a definitely-illegal head (CR, LF, NUL, space, empty in method / target / "
-        "header name / value). Second layer: a request whose stream a GOAWAY refuses, checked on every transmission. Non-trivial: "
+        "header name / value). Second layer: a request whose stream a GOAWAY refuses, checked on every transmission; and (HTTP/1.1) a request on a reused keep-alive connection that is hit by a fault (end of stream, reset, silence) at a drawn operation: every COMPLETE transmission of it must be the caller's request. Non-trivial: "
         "duplicates, caller-supplied Host/CL/TE, empty chunk, reuse, target extension or illegal head; distinct = distinct case.")
 
 PROP = Prop(
